@@ -169,13 +169,13 @@ theorem downProj_sound (I : Interp γ ι) {sel : Sel} {x e o : Expr} (he : e.op 
 
 /-! ### `Assign._simplify_down` -/
 
-theorem firstDedup_append : ∀ (a b : List Name),
-    firstDedup (a ++ b) = firstDedup a ++ (firstDedup b).filter (fun y => !a.contains y)
+theorem dedupFirst_append : ∀ (a b : List Name),
+    dedupFirst (a ++ b) = dedupFirst a ++ (dedupFirst b).filter (fun y => !a.contains y)
   | [], b => by
-    simp only [List.nil_append, firstDedup]
+    simp only [List.nil_append, dedupFirst]
     exact (List.filter_eq_self.mpr (fun _ _ => rfl)).symm
   | x :: a, b => by
-    simp only [List.cons_append, firstDedup, firstDedup_append a b, List.filter_append, List.filter_filter]
+    simp only [List.cons_append, dedupFirst, dedupFirst_append a b, List.filter_append, List.filter_filter]
     congr 2
     apply List.filter_congr
     intro y _
@@ -185,14 +185,14 @@ theorem firstDedup_append : ∀ (a b : List Name),
       simp [this, hy]
 
 theorem contains_filter_fd (k0 f : List Name) (y : Name) :
-    ((firstDedup k0).filter (fun k => !f.contains k)).contains y = (k0.contains y && !f.contains y) := by
+    ((dedupFirst k0).filter (fun k => !f.contains k)).contains y = (k0.contains y && !f.contains y) := by
   rw [Bool.eq_iff_iff]
-  simp only [List.mem_filter, mem_firstDedup, Bool.and_eq_true, Bool.not_eq_true',
+  simp only [List.mem_filter, mem_dedupFirst, Bool.and_eq_true, Bool.not_eq_true',
     List.contains_eq_mem, decide_eq_true_eq, decide_eq_false_iff_not]
 
 theorem assignCols_assignCols (k k0 f : List Name) : assignCols k (assignCols k0 f) = assignCols (k0 ++ k) f := by
-  unfold assignCols
-  rw [firstDedup_append, List.filter_append, List.append_assoc]
+  unfold assignCols assignLabels
+  rw [dedupFirst_append, List.filter_append, List.append_assoc]
   congr 2
   rw [List.filter_filter]
   apply List.filter_congr
